@@ -39,7 +39,7 @@ def load_corpus(prop: str) -> list[dict]:
 def _verdict(prop, root, ov):
     from check import run_property
     rep = run_property(prop, "quick", root, overlay=ov)
-    r, u = rep.refuted(), rep.undecided()
+    r, u = rep.new_refuted(), rep.undecided()
     if r:
         return "refuted", f"{r[0].rule} {r[0].where}: {r[0].desc[:110]} -- {r[0].detail[:160]}"
     if u or rep.errors:
